@@ -87,6 +87,8 @@ def shards(tier, seed):
                         continue  # quick: three element kinds at 4000; thorough: all
                     sh.append(("ladder", S, pers, elem, ss, nl))
             sh.append(("mixed", S, pers))
+        # the same lists on a driver whose first connection attempt was refused altogether (target out of connections) and that was then re-opened
+        sh.append(("mixed", S, "v20", "busy2"))
         for ss in big_element_sizes(S):
             sh.append(("ladder", S, "v20" if ss % 8 else "v32", None, ss, 3, "big"))
     return sh
@@ -189,7 +191,8 @@ def run_shard(shard, tier, seed):
         call(d.close)
         w.__exit__()
     else:
-        _, S, pers = shard
+        _, S, pers = shard[:3]
+        busy = len(shard) > 3
         import pycomm3
 
         proj = projgen.Project("P5m")
@@ -198,11 +201,16 @@ def run_shard(shard, tier, seed):
         proj.tag("small", "DINT", instance_id=5)
         fill_image(proj, 1)
         ctl = logix.LogixController(proj, pers)
-        t = enip.Target(ctl, enip.Policy(large_fo="accept" if S == 4000 else "refuse08"), keep_cip=False)
+        t = enip.Target(ctl, enip.Policy(large_fo="accept" if S == 4000 else "refuse08", fo_refuse_first=2 if busy else 0), keep_cip=False)
         with net.World(t, io_budget=10**9):
             d = pycomm3.LogixDriver("10.0.0.1")
-            call(d.open)
-            cfg = (S, pers, "mixed")
+            o = call(d.open)
+            if busy:
+                o = (o, call(d.close), call(d.open))
+                S = 500  # both Forward Opens of the first attempt were refused: the driver has fallen back to the standard size for good
+            cfg = (S, pers, "mixed" + ("-after-refused-open" if busy else ""))
+            if not t.connections:
+                rep.violation("size/open-failed", f"{cfg}: no connection after {o!r:.200}", {"shard": list(shard), "tag": None, "op": "open", "path": None, "choices": []})
             base = 150
             # reply of m<k>{k}: 4 (service hdr) + 2 (type) + k ; member overhead in a multi reply: +2 (offset)
             for target in range(S - 48, S + 9):
